@@ -46,12 +46,31 @@ def field_index(ctx, adt, fname=None, ty_path=None, ty_kind=None):
     return hits
 
 
+def ed_extra_state_guard(ctx):
+    a_ = ctx.prog.adts.get(ED)
+    if a_ is not None and a_['kind'] == 'struct':
+        from .extract import observer_fields
+        core = set(field_index(ctx, ED, ty_path='Modifiers') + field_index(ctx, ED, ty_path='HandleControl') + field_index(ctx, ED, ty_kind='param'))
+        extras = [i for i in range(len(a_['variants'][0]['fields'])) if i not in core]
+        if extras:
+            obs = observer_fields(ctx, ED, KNOWN_API)
+            live = [a_['variants'][0]['fields'][i]['name'] for i in extras if i not in obs]
+            if live:
+                raise Undecided('EventDecoder keeps state besides modifiers, mode and layout that can influence its operations (field%s %s): '
+                                'its behaviour depends on more history than the rule models' % ('s' if len(live) > 1 else '', ', '.join(live)))
+
+
 class EventModel:
     """Path classes of process_keyevent with the layout call kept opaque."""
 
     def __init__(self, ctx):
         self.ctx = ctx
         self.f = find_generic_method(ctx, ED, 'process_keyevent')
+        # state the decoder keeps besides its modifiers, mode and layout: fine while it only observes (a counter, a table of held keys
+        # with a getter); if it can influence what the operations do, the decoder's behaviour depends on more history than the rules
+        # model (512 modifier states x 2 modes) - decided fast and closed rather than by exhausting the budget (seeded3/C14-q6: a cache
+        # of the last (key, modifiers, result) triple)
+        ed_extra_state_guard(ctx)
         self.eng = Engine(ctx.prog)
         self.leaves = self.eng.run(self.f['path'], arg_names=['self', 'ev'])
         check_partition(self.eng, self.leaves)
